@@ -1570,11 +1570,31 @@ if( (node_header.data_type[0] != 'L') || (node_header.data_type[1] != 'K')) {
    CHECK_ADF_ABORT( *error_return ) ;
    } /* end if */
 
+	/** A link is exactly "LK": tokenized_data_type[] below has room for
+	    one type only **/
+if( (node_header.data_type[2] != ' ') && (node_header.data_type[2] != '\0') ) {
+   *error_return = INVALID_DATA_TYPE ;
+   CHECK_ADF_ABORT( *error_return ) ;
+   } /* end if */
+
         /** Get tokenized datatype **/
 ADFI_evaluate_datatype( file_index, node_header.data_type,
         &file_bytes, &machine_bytes, tokenized_data_type,
         &file_format, &machine_format, error_return ) ;
 CHECK_ADF_ABORT( *error_return ) ;
+
+	/** The link text is a 1-D character array that has to fit link_data[]
+	    (ADF_Link never writes more) **/
+if( node_header.number_of_dimensions != 1 ) {
+   *error_return = BAD_NUMBER_OF_DIMENSIONS ;
+   CHECK_ADF_ABORT( *error_return ) ;
+   } /* end if */
+if( (file_bytes < 1) || (node_header.dimension_values[0] < 1) ||
+    (node_header.dimension_values[0] >
+		(cgulong_t)(sizeof( link_data ) - 1) / file_bytes) ) {
+   *error_return = BAD_DIMENSION_VALUE ;
+   CHECK_ADF_ABORT( *error_return ) ;
+   } /* end if */
 
 total_bytes = file_bytes * (int)node_header.dimension_values[0] ;
 ADFI_read_data_chunk( file_index, &node_header.data_chunks,
@@ -1595,6 +1615,14 @@ if (separator == NULL) {
 } else {
    lenfilename = (size_t)(separator - link_data);
 }
+
+	/** the limits ADF_Link enforces; callers size their buffers by them **/
+if( (lenfilename > ADF_FILENAME_LENGTH) ||
+    (strlen( separator == NULL ? &link_data[1] : separator + 1 ) >
+		ADF_MAX_LINK_DATA_SIZE) ) {
+   *error_return = STRING_LENGTH_TOO_BIG ;
+   CHECK_ADF_ABORT( *error_return ) ;
+   } /* end if */
 
 if ( lenfilename == 0 )  /** no filename **/
 {
@@ -1665,11 +1693,31 @@ if( (node_header.data_type[0] != 'L') || (node_header.data_type[1] != 'K')) {
    return ;
    } /* end if */
 
+	/** A link is exactly "LK": tokenized_data_type[] below has room for
+	    one type only **/
+if( (node_header.data_type[2] != ' ') && (node_header.data_type[2] != '\0') ) {
+   *error_return = INVALID_DATA_TYPE ;
+   CHECK_ADF_ABORT( *error_return ) ;
+   } /* end if */
+
         /** Get tokenized datatype **/
 ADFI_evaluate_datatype( file_index, node_header.data_type,
         &file_bytes, &machine_bytes, tokenized_data_type,
         &file_format, &machine_format, error_return ) ;
 CHECK_ADF_ABORT( *error_return ) ;
+
+	/** The link text is a 1-D character array that has to fit link_data[]
+	    (ADF_Link never writes more) **/
+if( node_header.number_of_dimensions != 1 ) {
+   *error_return = BAD_NUMBER_OF_DIMENSIONS ;
+   CHECK_ADF_ABORT( *error_return ) ;
+   } /* end if */
+if( (file_bytes < 1) || (node_header.dimension_values[0] < 1) ||
+    (node_header.dimension_values[0] >
+		(cgulong_t)(sizeof( link_data ) - 1) / file_bytes) ) {
+   *error_return = BAD_DIMENSION_VALUE ;
+   CHECK_ADF_ABORT( *error_return ) ;
+   } /* end if */
 
 total_bytes = file_bytes * (int)node_header.dimension_values[0] ;
 ADFI_read_data_chunk( file_index, &node_header.data_chunks,
